@@ -54,6 +54,10 @@ class Prop(BaseProp):
                 j += 1
             cases.append({"kind": "Fresh", "words": 0, "bits": BITS[words], "pat": pats[j % len(pats)]})
             j += 1
+        # the observed wallet is created after other wallets of other lengths in the same process (answers differ per call):
+        # its entropy must still be the bytes the OS gave during ITS creation
+        for pre, words in (([12], 24), ([12, 15], 21), ([24], 12), ([15, 15], 18), ([12, 24, 12], 24), ([18], 15)):
+            cases.append({"kind": "Fresh", "words": words, "bits": 0, "pat": "counter", "pre": pre})
         for words in (11, 13, 0, 25):
             if words:
                 cases.append({"kind": "Fresh", "words": words, "bits": 0, "pat": "real"})
@@ -76,8 +80,20 @@ class Prop(BaseProp):
                 fixed = lambda n: b"\x80" + b"\x00" * (n - 1) if n else b""
             elif pat == "lz":
                 fixed = lambda n: b"\x00\x00" + bytes((i * 37 + 11) % 256 for i in range(max(0, n - 2)))
+            if pat == "counter":
+                ctr = [0]
+
+                def fixed(n):
+                    ctr[0] += 1
+                    return bytes((ctr[0] * 101 + i * 7 + 3) % 256 for i in range(n))
             rec = Recorder()
             with rec.installed(), urandom_spy(fixed) as log:
+                for w in case.get("pre", []):
+                    try:
+                        BaseWallet.new_wallet(mnemonic_length=w)
+                    except Exception:
+                        pass
+                del log[:]
                 try:
                     if case["words"]:
                         m = bip39.mnemonic_from_entropy_bits(bip39.MNEMONIC_LENGTH_TO_ENTROPY_BITS[case["words"]]) if False else \
@@ -135,12 +151,15 @@ class Prop(BaseProp):
             if len(seen) < n:
                 reseed_ok = False                          # equal PRNG seeds gave equal outputs
         # with a constant OS answer the output must be constant too (it has no other source)
-        with urandom_spy(lambda k: b"\x5a" * k):
-            a = bip39.mnemonic_from_entropy_bits(128)
-            _random.seed(1)
-            b = bip39.mnemonic_from_entropy_bits(128)
-        if a != b:
-            no_other = False
+        try:
+            with urandom_spy(lambda k: b"\x5a" * k):
+                a = bip39.mnemonic_from_entropy_bits(128)
+                _random.seed(1)
+                b = bip39.mnemonic_from_entropy_bits(128)
+            if a != b:
+                no_other = False
+        except Exception:
+            pass                                           # refusing a constant source is not a violation
         return {"flags": [ok_bound, distinct, bits_vary, reseed_ok, no_other], "err": False}
 
     def coq_term(self, case, obs):
